@@ -485,3 +485,79 @@ def isolation_failures(ctx, names, pairs_per_family=3, n_stream=240, n_batch=10)
                     fails.append(dict(detector=name, config=cfgA, other_config=cfgB, step=min(len(solo), len(inter)),
                                       what=f"{name}: trace lengths differ alone / interleaved ({len(solo)} vs {len(inter)})"))
     return fails
+
+
+# ---------------------------------------------------------------- reading a detector does not change it
+_MUTATORS = {"update", "reset", "set_reference", "give_oracle_label"}
+
+
+def read_everything(det):
+    """read every public attribute / property and call every public method that takes no argument and is not one of the
+    documented state-changing calls (mean, variance, the *_accuracy accessors, to_dataframe, to_plotly_dataframe, ...)"""
+    import inspect
+    called = []
+    for name in sorted(n for n in dir(det) if not n.startswith("_")):
+        if name in _MUTATORS:
+            continue
+        try:
+            v = getattr(det, name)
+        except Exception:
+            continue
+        if callable(v) and not inspect.isclass(v):
+            try:
+                sig = inspect.signature(v)
+                if all(p.default is not inspect.Parameter.empty or p.kind in (p.VAR_POSITIONAL, p.VAR_KEYWORD) for p in sig.parameters.values()):
+                    v()
+                    called.append(name)
+            except Exception:
+                called.append(name + "!")      # an accessor may legitimately raise (nothing to show yet); it still must not change anything
+    return called
+
+
+def accessor_failures(ctx, names, per_family=2, n_stream=260, n_batch=10):
+    """
+    "The counters count updates", "nothing is reported before ...", "the outputs are a function of the parameters and the history
+    of updates" all imply that READING a detector between updates -- its properties, statistics accessors, plotting / export
+    frames -- never changes what it reports later: the trace of a run in which everything public is read after every update
+    equals the trace of the plain run, and reading does not move the counters or the state at the moment it happens.
+    """
+    import core
+    fails = []
+    for name in names:
+        fam = BY_NAME[name]
+        for k in range(per_family):
+            rng = np.random.default_rng([ctx.seed, 4343, core.shash(name), k])
+            cfg = fam.config(rng)
+            hist = fam.history(rng, cfg, n_stream if fam.kind == "stream" else n_batch)
+            plain = solo_trace(fam, cfg, hist)
+            det = fam.make(cfg)
+            try:
+                items = fam.start(det, cfg, hist) or hist
+            except Exception as e:
+                fails.append(dict(detector=name, config=cfg, step=-1, what=f"starting {name} raised {type(e).__name__}: {e}"))
+                continue
+            read_everything(det)
+            called, bad = [], None
+            for j, it in enumerate(items):
+                try:
+                    fam.feed(det, it)
+                    o = obs(det) + (_pubstats(name, det),)
+                except Exception as e:
+                    o = ("EXC:" + type(e).__name__,)
+                if j >= len(plain) or o != plain[j]:
+                    bad = (j, "update %d reports %s after everything public was read between the updates, %s in the plain run"
+                           % (j, list(map(str, o)), list(map(str, plain[j])) if j < len(plain) else "nothing (shorter trace)"))
+                    break
+                if len(o) == 1:
+                    break
+                called = read_everything(det)
+                o2 = obs(det) + (_pubstats(name, det),)
+                if o2 != o:
+                    bad = (j, "reading the detector after update %d changed what it reports: %s -> %s" % (j, list(map(str, o)), list(map(str, o2))))
+                    break
+            ctx.count(f"accessors:{name}:histories")
+            ctx.case(("accessors", name, k), any(len(o) > 1 and o[0] == "drift" for o in plain))
+            if bad is not None:
+                fails.append(dict(detector=name, config=cfg, step=bad[0], accessors_called=called, history_seed=[ctx.seed, 4343, name, k],
+                                  what=f"{name}: {bad[1]} (reading a detector must not change it)"))
+    return fails
